@@ -91,7 +91,8 @@ HISTORY.update({
     "b3_C13_2": "caught as built (C12)", "b3_C13_3": "missed as built; J2/J5 evaluated with parameter-free integrands and dependent limits (patch rebased onto fix 94f7f9a)",
     "b3_C14_1": "caught as built", "b3_C14_2": "REFUSED (exit 2) now, missed as built: a new differentiation hook (_eval_derivative_n_times) is not decided; the check refuses instead of passing",
     "b3_C14_3": "caught as built (C09-N1)",
-    "b3_C15_1": "refused as built (exit 2: id() outside the evaluator's subset); rule C15-X7 added", "b3_C15_2": "caught as built",
+    "b3_C15_1": "refused as built (exit 2: id() outside the evaluator's subset); rule C15-X7 added (the demonstration relied on CPython handing a dead point's address to the "
+                "very next allocation, which stopped happening after fix f48be70 changed convert.py; it now searches for an address collision: demo.original.py kept)", "b3_C15_2": "caught as built",
     "b3_C15_3": "missed as built; rule C15-X7 (iterable traversed twice) added",
     "b3_C16_1": "refused as built (exit 2: anchors of the shape-bound Q1/Q3 gone); caught after Q1/Q3 were rewritten as whole-function evaluation",
     "b3_C16_2": "refused as built; caught after the rewrite (Expr.coeff modelled on the top-level sum)", "b3_C16_3": "refused as built; caught after the rewrite (scaled unknowns)",
@@ -102,6 +103,9 @@ HISTORY.update({
     "b3_C20_2": "caught as built", "b3_C20_3": "caught as built",
 })
 DROPPED = {
+    "b3_C06_1": "obsolete: the change (Symbolic.__init__ keeps the dimension of the first initialisation of a cached instance) broke C06 only through the wrapper-alias "
+                "defect of the pinned tree - two different arguments that print alike being ONE cached object. That defect was repaired in 6afdd9a; on the repaired tree "
+                "every wrapper is initialised once and the demonstration passes with the patch applied",
     "C03_3": "obsolete: the change (a derivation building ExactDifferential(symbols.momentum) in a dynamics law) broke C03 only through the wrapper-alias defect of the "
              "pinned tree (Symbolic objects shared through SymPy's name-keyed cache). That defect was repaired in 6afdd9a; on the repaired tree the demonstration "
              "passes with the patch applied and the checks are rightly silent. The defect itself is re-introduced by self-test mutant b4-wrapper-cached-by-display-name-regression",
@@ -146,7 +150,7 @@ def main() -> int:
             continue
         dst = out / sid
         dst.mkdir(exist_ok=True)
-        for f in ("patch.diff", "demo.py", "notes.md", "patch.original.diff"):
+        for f in ("patch.diff", "demo.py", "notes.md", "patch.original.diff", "demo.original.py"):
             if (sd / f).exists():
                 shutil.copy(sd / f, dst / f)
         caught = {k: {"exit": v["exit"], "rules": sorted({r.split(" ")[1] for r in v.get("reports", []) if r.startswith("[")}),
